@@ -1,5 +1,8 @@
 pub mod behave;
 pub mod c01;
+pub mod c06;
+pub mod c07;
+pub mod c16;
 pub mod findings;
 
 use crate::common::{Report, Tier};
@@ -7,6 +10,9 @@ use crate::common::{Report, Tier};
 pub fn run(id: &str, tier: Tier) -> Option<Report> {
     Some(match id {
         "C01" => c01::run(tier),
+        "C06" => c06::run(tier),
+        "C07" => c07::run(tier),
+        "C16" => c16::run(tier),
         _ => return None,
     })
 }
@@ -23,7 +29,7 @@ pub fn replay(id: &str, path: &str) -> i32 {
     let replay = &doc["replay"];
     println!("{}", doc["summary"].as_str().unwrap_or(""));
     match (id, replay["kind"].as_str()) {
-        ("C01", Some("pipeline")) => behave::replay_pipeline(replay, behave::no_env, behave::no_env),
+        ("C01" | "C06" | "C16", Some("pipeline")) => behave::replay_pipeline(replay, behave::no_env, behave::no_env),
         _ => {
             println!("no dedicated replay for this record; the summary above holds the complete case");
             2
